@@ -13,7 +13,7 @@ prop("C14", "topic filters and ServeMux dispatch", "exploration",
      "string and topics = non-empty words of depth 1..5 over {'',a,b}; random: rapid-generated filters/topics over a larger "
      "level alphabet (multi-byte runes, embedded wildcards, depth <= 12) and ServeMux registration lists. "
      "Non-trivial = the filter contains a wildcard or an empty level (pairs), or >= 2 registered handlers match one topic "
-     "(mux); distinct = distinct (filter, topic) pairs / distinct mux cases (FNV-64 of the case).",
+     "(mux); distinct = distinct (filter, topic) pairs / distinct mux cases (FNV-64 of the case). Topics up to 90 levels, muxes of up to 70 handlers, handlers that register further handlers or dispatch nested messages through their own mux.",
      [
          dict(tests="^TestVerifC14_Exhaustive$", exhaustive_once=True),
          dict(tests="^TestVerifC14_(Pair|Mux)$", checks_quick=20000, checks_thorough=600000, shards=8),
@@ -27,7 +27,7 @@ prop("C04", "inbound QoS 0/1/2 flows", "exploration",
      "re-used as a retransmission) / PUBREL (known, unknown, repeated) fed to a connected BaseClient with handler on / off / "
      "registered half-way, generated read chunking; the observed timeline of handler entries/exits and written acks must equal "
      "the reference automaton's. Non-trivial = the sequence releases a stored QoS2 message, retransmits a QoS2 PUBLISH or "
-     "repeats a PUBREL; distinct = FNV-64 of the case JSON. Since rounds 3-5 the handler may overwrite every field of the message it owns, call back into the client, or be registered in the middle; outbound QoS2 publishes use the inbound id set; the first packets may sit in the CONNACK's buffer; the peer may half-close right after its last packet, the EOF arriving after or together with the last bytes. Topics up to 90 levels, muxes of up to 70 handlers, handlers that register further handlers or dispatch nested messages through their own mux.",
+     "repeats a PUBREL; distinct = FNV-64 of the case JSON. Since rounds 3-5 the handler may overwrite every field of the message it owns, call back into the client, or be registered in the middle; outbound QoS2 publishes use the inbound id set; the first packets may sit in the CONNACK's buffer; the peer may half-close right after its last packet, the EOF arriving after or together with the last bytes.",
      [dict(tests="^TestVerifC04_Flows$", checks_quick=6000, checks_thorough=180000, shards=12,
            fuzz=[dict(target="FuzzVerifC04", time="180s", workers=8)]),
       dict(tests="^TestVerifC04_Flows$", race=True, checks_quick=800, checks_thorough=9000, shards=4)],
